@@ -10,8 +10,6 @@ SUA = "pysmt.optimization.optimizer.SUAOptimizerMixin"
 CMP = "pysmt.optimization.optimizer.OptComparationFunctions"
 INTERVAL = "pysmt.optimization.optimizer.OptSearchInterval"
 
-OPEN = {"_setup": "_cleanup", "push": "pop", "_pareto_setup": "_pareto_cleanup"}
-
 EXPLANATION = (
     "Abstract interpretation of pysmt/optimization/optimizer.py and goal.py: SUAOptimizerMixin and "
     "IncrementalOptimizerMixin are mixed (in an analysis-side probe class) into a back-end whose verdicts and "
@@ -26,16 +24,6 @@ EXPLANATION = (
     "_setup of the search was matched on the path actually taken (R4).")
 NOT_DECIDED = ["scenarios outside the menu; Real objectives (the routines are documented to diverge on them); "
                "native optimisers (OptiMathSAT, z3 optimize) behind their converters"]
-
-REF_CMP = {
-    ("LIA", "MinimizationGoal"): ("Int", "LT", "LE"), ("LIA", "MaximizationGoal"): ("Int", "GT", "GE"),
-    ("LRA", "MinimizationGoal"): ("Real", "LT", "LE"), ("LRA", "MaximizationGoal"): ("Real", "GT", "GE"),
-    ("BV", "MinimizationGoal", False): ("cast_bv", "BVULT", "BVULE"),
-    ("BV", "MinimizationGoal", True): ("cast_bv", "BVSLT", "BVSLE"),
-    ("BV", "MaximizationGoal", False): ("cast_bv", "BVUGT", "BVUGE"),
-    ("BV", "MaximizationGoal", True): ("cast_bv", "BVSGT", "BVSGE"),
-}
-
 
 def run(ctx):
     repo = get_repo()
